@@ -7,6 +7,7 @@ From Coq Require Import List NArith Lia Bool PeanoNat.
 From Coq Require Import ZifyBool ZifyN ZifyNat.
 From Minimq Require Import Bytes Varint Utf8 Props Ser De Reader Spec Arena Core Show Machine Parse Run Util Lts Refine
   ArenaLemmas ArenaOps Inv Quota Status Persist Frames Limits Reach WireInv Chunking.
+From Minimq Require Import PacketShape.
 Import ListNotations.
 Local Open Scope N_scope.
 
@@ -619,9 +620,7 @@ Proof.
     try reflexivity.
   - destruct q; [reflexivity| |]; (destruct pid as [id|]; [|reflexivity]).
     + apply queue_ctl_checked_reader.
-    + destruct (mem_id id (s_srv s)); [apply queue_ctl_checked_reader|].
-      destruct (MAX_INBOUND_QOS2 <=? glen (s_srv s)); [apply queue_ctl_checked_reader|].
-      exact (queue_ctl_checked_reader (set_srv s (s_srv s ++ [id])) _ _).
+    + cbn [handle_packet]. q2_split; apply queue_ctl_checked_reader.
   - destruct (ack_packet _ _) as [o f]. destruct (negb f); [reflexivity|]. destruct (rc_success rc); reflexivity.
   - destruct (ack_packet _ _) as [o f]. destruct f.
     + destruct (negb (rc_success rc)); [reflexivity|]. cbn [set_ob s_rt].
